@@ -77,11 +77,14 @@ def judge_sqlite(case, obs):
     if state == 'open_dirty' and (not case['child'] or case['child'][0] != 'rollback'):
         raise Unjudgeable('precondition: with unflushed objects in the inherited cache the child must discard it first')
 
+    if state == 'thread_open_write' and (case['order'] != 'child_first' or case['parent_after'] not in ([], ['read'])):
+        raise Unjudgeable('precondition: thread_open_write histories only have child_first order and a read-only parent script')
+
     findings = []
     labels, procs, dead = flatten_sqlite(obs)
     if dead is not None:
         kind, rep = dead
-        findings.append(('deadlock', 'a forked process (single thread) blocked forever in SQLiteProvider.acquire_lock: %s'
+        findings.append(('deadlock', '[deadlock] a forked process (single thread) blocked forever in SQLiteProvider.acquire_lock: %s'
                          % ((rep.get('stack') or [])[:5],)))
         return findings, {'foreign_noop_calls': 0, 'child_statements': 0}
 
@@ -120,7 +123,7 @@ def judge_sqlite(case, obs):
     committed = ['p0']
     if state == 'after_commit':
         committed.append('pc')
-    model = {'committed': committed, 'parent_open': state in OPEN_STATES,
+    model = {'committed': committed, 'parent_open': state in OPEN_STATES or state == 'thread_open_write',
              'pending': ['pu'] if state in ('open_write', 'open_dirty') else []}
     child_in_inherited = state in OPEN_STATES
 
@@ -223,6 +226,13 @@ def judge_sqlite(case, obs):
     else:
         parent_ops(obs['parent_after'])
         child_ops(child_records, 'C', not child_in_inherited)
+    if state == 'thread_open_write':
+        model['parent_open'] = False
+        trec = obs.get('thread') or {}
+        if trec.get('ok'):
+            model['committed'].append('tu')
+        else:
+            findings.append(('parent-broken', "the parent's other thread could not commit its open transaction: %r" % (trec.get('exc'),)))
     parent_ops(obs['final'])
 
     if 'file_error' in obs:
